@@ -509,6 +509,38 @@ func c03GenScenario(rt *rapid.T, o c03Opts) *c03Scenario {
 		if resorted {
 			sc.classes["proxy-must-resort"] = true
 		}
+		if !o.plain && len(frames) > 0 && rapid.IntRange(0, 5).Draw(rt, "chunklessFrame") == 0 {
+			// A store may send a frame of a series that carries no chunks (e.g. one piece of a series
+			// split over frames holds nothing for the requested range). It is placed next to a frame of
+			// the same series, so the stream stays sorted and the expected chunks do not change.
+			at := rapid.IntRange(0, len(frames)-1).Draw(rt, "chunklessAt")
+			if f := frames[at]; f.warning == "" && len(f.series) > 0 {
+				k := rapid.IntRange(0, len(f.series)-1).Draw(rt, "chunklessSeries")
+				before := rapid.Bool().Draw(rt, "chunklessBefore")
+				if f.batch && ((before && k != 0) || (!before && k != len(f.series)-1)) {
+					// inside a batch the empty piece must stay adjacent to its series: put it in the batch
+					ns := append([]serSpec(nil), f.series...)
+					e := serSpec{lset: f.series[k].lset}
+					if before {
+						ns = append(ns[:k:k], append([]serSpec{e}, ns[k:]...)...)
+					} else {
+						ns = append(ns[:k+1:k+1], append([]serSpec{e}, ns[k+1:]...)...)
+					}
+					frames[at] = frameSpec{batch: true, series: ns}
+				} else {
+					e := frameSpec{series: []serSpec{{lset: f.series[k].lset}}}
+					if before {
+						frames = append(frames[:at:at], append([]frameSpec{e}, frames[at:]...)...)
+					} else {
+						frames = append(frames[:at+1:at+1], append([]frameSpec{e}, frames[at+1:]...)...)
+					}
+				}
+				sc.classes["chunkless-frame"] = true
+				if before {
+					sc.classes["chunkless-frame-first"] = true
+				}
+			}
+		}
 		if !o.plain && rapid.IntRange(0, 19).Draw(rt, "storeWarning") == 0 {
 			at := rapid.IntRange(0, len(frames)).Draw(rt, "warnAt")
 			w := frameSpec{warning: fmt.Sprintf("store-sent warning of %s", st.name)}
